@@ -140,6 +140,30 @@ pub fn walk_order_case(tree: &crate::tree::Tree, hunk: usize, srcs: &SrcCache, s
                                 ),
                             ));
                         }
+                        // the same listing taken by subtree: the part of the documented order
+                        // under each directory (the first three), nothing twice, nothing moved
+                        for (k, n) in tree.iter().filter(|(k, n)| !k.is_empty() && n.is_dir()).take(3) {
+                            let _ = n;
+                            let s = crate::tree::apath_of(k);
+                            let want: Vec<&String> = expected
+                                .iter()
+                                .filter(|p| **p == s || (p.starts_with(&s) && p.as_bytes().get(s.len()) == Some(&b'/')))
+                                .collect();
+                            let (lo, listed) = run::do_list(&a2, run::Sel::Band(1), &s, &[], run::NOHOOK);
+                            let l: Vec<String> = listed.into_iter().map(|e| e.apath).collect();
+                            if !lo.is_ok() || l.iter().ne(want.iter().copied()) {
+                                v.push(Violation::new(
+                                    "C11:stitched-subtree-listing-order",
+                                    format!(
+                                        "tree {brief}: second version (hunks of {}) killed before op {}: listing under {s} gives {l:?}, documented order of the same paths is {want:?} ({})",
+                                        small.hunk,
+                                        r.idx,
+                                        lo.describe()
+                                    ),
+                                ));
+                                break;
+                            }
+                        }
                     }
                     let _ = std::fs::remove_dir_all(&a2);
                 }
